@@ -325,6 +325,101 @@ fn port_value_sweep(full: bool) -> (u64, Vec<(String, String, String)>) {
     (n, bad)
 }
 
+/// The board of a machine created with a configuration (the way the CLI and the TUI start it):
+/// every combination of a grid of configuration values must show the status REF-BOARD gives for
+/// the same external inputs, and go on agreeing under a few port writes and input changes.
+fn configured_boards() -> (u64, Vec<(String, String, String)>) {
+    use emulator_2a_lib::machine::{Machine, MachineConfig};
+    let volts = [0.0f32, 1.0, 3.0, 7.0, f32::NAN];
+    let mut cfgs = vec![];
+    for &temp in &volts {
+        for &a1 in &volts {
+            for &a2 in &volts {
+                for bits in 0..32u8 {
+                    cfgs.push(MachineConfig {
+                        temp,
+                        analog_input1: a1,
+                        analog_input2: a2,
+                        jumper1: bits & 1 != 0,
+                        jumper2: bits & 2 != 0,
+                        universal_input_output1: bits & 4 != 0,
+                        universal_input_output2: bits & 8 != 0,
+                        universal_input_output3: bits & 16 != 0,
+                        digital_input1: bits.wrapping_mul(37),
+                        ..Default::default()
+                    });
+                }
+            }
+        }
+    }
+    let follow = [Op::W(0xF1, 150), Op::W(0xF0, 250), Op::W(0xF2, 0xC5), Op::Ai2(0.5), Op::Temp(0.2), Op::W(0xF2, 0x83), Op::Uio(2, false), Op::J1(false)];
+    let res = mc::par_ranges(cfgs.len(), 64, |rg| {
+        let mut bad = vec![];
+        let mut n = 0u64;
+        for i in rg {
+            let c = &cfgs[i];
+            let label = format!("config temp={} ai1={} ai2={} j1={} j2={} uio={}{}{} di1={:#04x}", c.temp, c.analog_input1, c.analog_input2, c.jumper1 as u8, c.jumper2 as u8, c.universal_input_output1 as u8, c.universal_input_output2 as u8, c.universal_input_output3 as u8, c.digital_input1);
+            let r = mc::catch(|| {
+                let m = Machine::new(c.clone());
+                let mut b = m.bus().clone();
+                let mut r = RBoard::new();
+                r.set_di1(c.digital_input1);
+                r.set_temp(c.temp);
+                r.set_j1(c.jumper1);
+                r.set_j2(c.jumper2);
+                r.set_ai1(c.analog_input1);
+                r.set_ai2(c.analog_input2);
+                r.set_uio(0, c.universal_input_output1);
+                r.set_uio(1, c.universal_input_output2);
+                r.set_uio(2, c.universal_input_output3);
+                // interrupt flags raised while the inputs were connected are not part of the comparison
+                // of the start state (the order of connection is not specified); cleared on both sides
+                b.write(0xF3, 0);
+                r.write(0xF3, 0);
+                let mut cnt = 1u64;
+                if let Some((k, w)) = compare(&b, &r) {
+                    return (cnt, Some((k, format!("board of a machine created with this configuration: {}", w))));
+                }
+                for op in follow {
+                    apply(&mut b, &mut r, op);
+                    cnt += 1;
+                    if let Some((k, w)) = compare(&b, &r) {
+                        return (cnt, Some((k, format!("configured board after {:?}: {}", op, w))));
+                    }
+                }
+                (cnt, None)
+            });
+            match r {
+                Ok((c2, v)) => {
+                    n += c2;
+                    if let Some((k, w)) = v {
+                        if bad.len() < 4 {
+                            bad.push((format!("configured/{}", k), w, label));
+                        }
+                    }
+                }
+                Err(p) => {
+                    if bad.len() < 4 {
+                        bad.push((format!("panic/{}", p.file()), format!("panic at {}: {}", p.site(), p.msg), label));
+                    }
+                }
+            }
+        }
+        (n, bad)
+    });
+    let mut n = 0;
+    let mut bad = vec![];
+    for (c, b) in res {
+        n += c;
+        for x in b {
+            if bad.len() < 6 {
+                bad.push(x);
+            }
+        }
+    }
+    (n, bad)
+}
+
 /// The clamping rule over f32 bit patterns through each of the three analog setters.
 fn f32_sweep(full: bool) -> (u64, Vec<(String, String, String)>) {
     // quick: every sign x exponent (2^9) x every value of the 12 leading mantissa bits, trailing 11 bits all-0 and all-1
@@ -383,6 +478,15 @@ pub fn run() {
     if let Some(f) = ctx.replay_file.clone() {
         let text = std::fs::read_to_string(&f).expect("replay file");
         let kv = mc::kv(text.lines().next().unwrap_or(""));
+        if !kv.contains_key("ops") {
+            // configured boards / f32 patterns: the families take a second, re-run them
+            let (_, bad) = configured_boards();
+            for (k, w, l) in bad {
+                println!("{} :: {} :: {}", k, l, w);
+                ctx.violation(k, w, l);
+            }
+            ctx.finish();
+        }
         let ops = parse_ops(&kv["ops"]);
         let r = run_ops(&ops);
         println!("{:?} -> {:?}", ops, r);
@@ -500,6 +604,15 @@ pub fn run() {
             e.1.push((l, w));
         }
     }
+    let (cfg_ops, cfg_bad) = configured_boards();
+    for (k, w, l) in cfg_bad {
+        let e = bad.entry(k).or_default();
+        e.0 += 1;
+        if e.1.len() < 3 {
+            e.1.push((l, w));
+        }
+    }
+    ctx.set("configured_board_operations", cfg_ops);
     let (pv_ops, pv_bad) = port_value_sweep(!quick);
     for (k, w, l) in pv_bad {
         let e = bad.entry(k).or_default();
